@@ -89,3 +89,67 @@ Proof. intros p np name fp ps body. destruct (func_body_ops_carry_positions_of_t
 Theorem template_expressions_stay_on_the_lines_of_their_string : forall p tpl,
   Forall (fun '(_, st, text) => (line p <= line st)%N /\ (line st + count_lf text <= line p + count_lf tpl)%N) (tpl_scan p tpl).
 Proof. exact tpl_scan_lines. Qed.
+
+(* ---- errors carry the position of the failing op / operand; call sites are appended as VIA (pos/PVm.v: vm.rs and the runtime
+   hooks with the positions the real VM keeps next to every op, stack entry, binding, list element and tuple field).  The model's
+   outcome, primary position and whole VIA list equal the real evaluator's on every fault-injected program (props/c17.py). ---- *)
+From Ucg Require Import sem.Sem vm.Vm pos.PVm pos.PVm_Erase pos.PVm_Map pos.PVm_Lemmas pos.PVm_Inv pos.PVm_Locality pos.PVm_Scoped.
+
+Section C17_vm.
+  Variable fo : float_ops.
+
+  (* forgetting positions, the positioned machine is the machine the compile-correctness theorems (C01) are about *)
+  Theorem positioned_vm_is_the_vm : forall fuel envv strict_ (p : pprog),
+      erase_out erase_bindings (pvm_prog fo fuel envv strict_ (ptranslate p)) = vm_prog fo fuel envv strict_ (translate (map erase_stmt p)).
+  Proof. exact (pvm_erase_translated fo). Qed.
+
+  (* every position an error reports - the primary one and every VIA entry - is the position of a node of some statement of
+     the program (never a made-up position; with a process environment the env tuple's dummy 0:0 is the one exception) *)
+  Theorem error_positions_come_from_the_program : forall fuel envv strict_ prog e p via,
+      pvm_prog fo fuel envv strict_ (ptranslate prog) = PErr e p via ->
+      forall q, In q (p :: via) -> (exists s, In s prog /\ In q (positions_of_stmt s)) \/ (q = pos0 /\ envv <> []).
+  Proof. exact (pvm_positions_from_program fo). Qed.
+
+  (* hence every reported line lies in the line span of some statement *)
+  Theorem error_lines_lie_in_a_statement : forall fuel strict_ prog (span : pstmt -> N * N) e p via,
+      (forall s, In s prog -> stmt_in_span s (fst (span s)) (snd (span s))) ->
+      pvm_prog fo fuel [] strict_ (ptranslate prog) = PErr e p via ->
+      forall q, In q (p :: via) -> exists s, In s prog /\ (fst (span s) <= line q <= snd (span s))%N.
+  Proof. exact (pvm_error_lines_in_some_statement fo). Qed.
+
+  (* an error handed to its caller by a function defined in statement d is local to d (its primary position is a node of d) *)
+  Theorem function_errors_belong_to_the_defining_statement : forall envv strict_ p1 p2 d f ptr j pf bs snap s e q via,
+      let code := ptranslate (p1 ++ [d] ++ p2) in
+      let lo := List.length (ptranslate p1) in
+      let hi := lo + List.length (ptranslate_stmt d) in
+      lo <= ptr < hi -> nth_error code ptr = Some (IFunc j, pf) ->
+      Forall (eok fo (Ncode code envv pos0) (Ncode code envv pos0)) s -> Forall (bok fo (Ncode code envv pos0)) snap ->
+      p_fcall_impl fo (pvm_run fo code strict_ envv pos0 f) ptr bs snap s = PErr e q via -> stmt_err d e q via.
+  Proof. exact (function_body_local_program fo). Qed.
+
+  (* locality: an error of the program [p1 ++ [s] ++ p2] either surfaced before s, or - when the value stack is empty as s starts -
+     is an error OF s ([stmt_err]: without VIA its primary position is a node of s, with VIA the outermost call site is), or s
+     finished and it surfaced later *)
+  Theorem errors_are_local_to_the_executing_statement : forall fuel envv strict_ p1 p2 s e q via,
+      let code := ptranslate (p1 ++ [s] ++ p2) in
+      let lo := List.length (ptranslate p1) in
+      let hi := lo + List.length (ptranslate_stmt s) in
+      pvm_prog fo fuel envv strict_ code = PErr e q via ->
+      pvm_run_until fo code strict_ envv pos0 lo fuel (pinit_state fo) = PErr e q via \/
+      (exists st0 fuel0,
+          pvm_run_until fo code strict_ envv pos0 lo fuel (pinit_state fo) = POk st0 /\ ppc st0 = lo /\
+          pvm_run fo code strict_ envv pos0 fuel0 st0 = PErr e q via /\
+          (pstk st0 = [] ->
+           stmt_err s e q via \/
+           (exists st1 fuel1,
+              pvm_run_until fo code strict_ envv pos0 hi fuel0 st0 = POk st1 /\ ppc st1 = hi /\
+              pvm_run fo code strict_ envv pos0 fuel1 st1 = PErr e q via))).
+  Proof. exact (pvm_locality_program fo). Qed.
+
+  (* k lines added before the program move the primary position and every VIA entry by exactly k lines *)
+  Theorem error_positions_move_with_the_text : forall k fuel strict_ p e q via,
+      pvm_prog fo fuel [] strict_ (ptranslate p) = PErr e q via ->
+      pvm_prog fo fuel [] strict_ (ptranslate (map (shift_stmt k) p)) =
+      PErr e ((fst q + k)%N, snd q) (map (fun v => ((fst v + k)%N, snd v)) via).
+  Proof. exact (pvm_shift_error fo). Qed.
+End C17_vm.
